@@ -15,13 +15,22 @@ SPEC = {
              "sizes x truncation points, IPv4/IPv6 incl. IPv4-mapped, noise) through the real parseUDPHeader, then "
              "buildUDPHeader of the result and parseUDPHeader again. ubp cases: host text (IPv4/IPv6 canonical and "
              "non-canonical spellings, names of every length) x port x payload through buildUDPHeader then parseUDPHeader. "
+             "adc cases: every fifth hs/ad stream also through the real SocksAdapter.handleSocksConnection (no session attached). "
+             "conn cases: Listener.handleConnection on the fake connection with tunnel-/relay-creator doubles (present or nil, "
+             "succeed or fail, relay bind address IPv4 / IPv4-mapped / IPv6, ports 0..65535) over valid, mutated, truncated and "
+             "pipelined (up to 2000 trailing bytes) negotiations, all 16 creator combinations x CONNECT/UDP ASSOCIATE x address "
+             "type, and the 10.0.0.1:853 interception with its neighbours (as IPv4, as a name, IPv4-mapped); observation = "
+             "creator calls with every argument and the bytes still unread on the connection, bytes written, closed or not. "
+             "live cases: the same through Manager.AddMapping -> Listener.Start -> acceptLoop over loopback TCP. "
              "relay cases: a sequence of datagrams (valid IPv4/IPv6/domain incl. shared destinations and exact duplicates, "
              "fragments, truncated, unknown ATYP; payload 0..1400) sent to the UDP socket of a real UDPRelay (readLoop + one "
              "handlePacket goroutine per datagram) with tunnel doubles recording every SendPacket; three forced schedules: "
              "paced (each delivered before the next is sent), burst (GOMAXPROCS(1), whole burst written before the harness "
              "yields, so the reader drains the socket before any started goroutine runs), gated (doubles block in SendPacket "
-             "until every destination has arrived, bytes taken when the gate opens); observation = sorted multiset of "
-             "(tunnel destination, bytes). distinct = distinct (mode, stream/datagram(s)/host, chunk sizes)"),
+             "until every destination has arrived, bytes taken when the gate opens); a DNS-handler double installed or not (port 53, incl. the virtual DNS "
+             "address); the doubles answer every packet (tunnel A5++payload via ReceivePacket/receiveLoop, DNS D5++query) and "
+             "the application socket collects what comes back; names spelling IP literals; a 65506-byte datagram; observation = "
+             "sorted lists of (tunnel destination, bytes), (DNS server, query), datagrams received back. distinct = distinct (mode, stream/datagram(s)/host, chunk sizes)"),
     "trusted_base": [
         "Lean 4.33 kernel; axioms propext, Classical.choice, Quot.sound only (audited per theorem on every run)",
         "extractor /verif/extract (go/ast): SOCKS5 constants of both packages, call skeletons (order of ReadFull / Write / "
@@ -42,7 +51,11 @@ SPEC = {
         "BuildWF for buildUDPHeader: host text of at most 255 octets and port < 65536 (callers pass the host/port a parse produced)",
         "same destination = same host text, or IP literals denoting the same address (a name spelled as a non-canonical IP literal is re-encoded as that address)",
         "relay: datagrams fit the 65535-byte read buffer (UDP cannot carry more); loopback UDP does not drop or reorder the bursts "
-        "(<= 17 datagrams, <= 25 KB); session limits, idle cleanup, the DNS-over-control-channel path and the reply direction are out of scope",
+        "(<= 17 datagrams, <= 25 KB); tunnel SendPacket / QueryDNS / CreateUDPTunnel succeed (their error paths: session removal, "
+        "idle cleanup, the 128-session limit are session lifecycle, not parsing, and are not driven)",
+        "conn: the listener's own policy (CONNECT to 10.0.0.1:853 refused with a failure reply) is part of the reference as a literal; "
+        "for a relay bound to a non-IPv4-mapped IPv6 address the success reply may carry 0.0.0.0 (what the code does) — only the port is required",
+        "adapter beyond parsing (Listen/Accept, dialThroughTunnel, relay with a session attached) is out of scope: it dials real targets",
         "the SocksAdapter is driven through handleHandshake+handleRequest in the order of handleSocksConnection (pinned by skeleton); dialing and relaying are out of scope",
     ],
 }
